@@ -153,6 +153,72 @@ def handle (sess : Sess) (rep : Report) (ln : Nat) (toks : List String) (obs : S
       if obs == "ok" then ({ model := some (init ci), mon := MonState.start cfg, active := true }, rep)
       else ({}, { rep.msg s!"DIVERGE line={ln} model=ok impl={obs}" with diverged := rep.diverged + 1 })
     | none => ({}, rep.msg s!"BAD line={ln}")
+  | "pick2" :: rest =>
+    -- two plain picks on one picker, run concurrently by the harness while it stalls the balancer
+    -- lock: the model must explain the outcome by *some* order of two atomic picks (C02)
+    if !sess.active then (sess, rep.bump "pool.skipped_after_divergence") else
+    let a := args rest
+    match (arg a "a").toNat?, (arg a "b").toNat?, (arg a "picker").toNat? with
+    | some ca, some cb, some pn =>
+      let mk (c : Nat) : Op := .pick c pn "plain" .gcp none (.msg { key := "", keys := [] })
+      let parts := obs.splitOn " ; "
+      let resOf (tag : String) : String :=
+        match parts.find? (fun e => e.startsWith tag) with
+        | some e => (e.drop tag.length).toString
+        | none => "?"
+      let resA := resOf "a:"
+      let resB := resOf "b:"
+      let implEvents := parts.filter fun e => !(e.startsWith "a:" || e.startsWith "b:" || e.startsWith "dg ")
+      let rep := rep.bump "pool.concurrent_pick_pair"
+      -- the two sequential explanations
+      let explain (first second : Op) (tagF tagS : String) : Option (St × St × List String × List String × String) :=
+        match sess.model with
+        | none => none
+        | some s =>
+          let (s1, e1) := step s first
+          let (s2, e2) := step s1 second
+          let strs1 := e1.map evStr
+          let strs2 := e2.map evStr
+          let ev1 := strs1.dropLast
+          let ev2 := strs2.dropLast
+          let r1 := strs1.getLast?.getD "?"
+          let r2 := strs2.getLast?.getD "?"
+          let line := " ; ".intercalate (ev1 ++ ev2 ++ (if tagF == "a:" then [s!"a:{r1}", s!"b:{r2}"] else [s!"a:{r2}", s!"b:{r1}"]) ++ [digest s2])
+          some (s1, s2, strs1, strs2, line)
+      let ab := explain (mk ca) (mk cb) "a:" "b:"
+      let ba := explain (mk cb) (mk ca) "b:" "a:"
+      let pick (x : Option (St × St × List String × List String × String)) : Bool :=
+        match x with | some (_, _, _, _, line) => line == obs | none => false
+      let chosen := if pick ab then some (true, ab) else if pick ba then some (false, ba) else none
+      -- monitors: feed the two picks one after the other; between them the view is the model's
+      -- intermediate state when an order explains the outcome, else the printed state before the
+      -- pair with the first placement counted
+      let feed (mon : MonState) (rep : Report) (op1 op2 : Op) (evs1 evs2 : List String) (mid : Option ImplView) : MonState × Report :=
+        let (mon, fails1, hits1) := mon.observe op1 evs1 mid
+        let (mon, fails2, hits2) := mon.observe op2 evs2 (parseDigest obs)
+        let rep := (fails1 ++ fails2).foldl (fun rep (p, c) =>
+          { rep.msg s!"MONITOR property={p} clause={c} line={ln}" with monitorFails := rep.monitorFails + 1 }) rep
+        (mon, (hits1 ++ hits2).foldl (fun rep h => rep.bump h) rep)
+      match chosen with
+      | some (abOrder, some (s1, s2, strs1, strs2, _)) =>
+        let (o1, o2) := if abOrder then (mk ca, mk cb) else (mk cb, mk ca)
+        let (mon, rep) := feed sess.mon rep o1 o2 strs1 strs2 (parseDigest (digest s1))
+        ({ sess with model := some s2, mon := mon }, rep)
+      | _ =>
+        -- no order of two atomic picks explains what happened
+        let bump (v : ImplView) (res : String) : ImplView :=
+          match (res.splitOn "sc=")[1]? >>= String.toNat? with
+          | some sc => match slotOfSc v.refs sc with
+            | some slot => { v with refs := v.refs.modify slot fun r => { r with streamsCnt := r.streamsCnt + 1 } }
+            | none => v
+          | none => v
+        let mid := sess.mon.view.map fun v => bump v resA
+        let (evsA, evsB) := if resB == "nosc" && resA != "nosc" then ([resA], implEvents ++ [resB]) else (implEvents ++ [resA], [resB])
+        let (mon, rep) := feed sess.mon rep (mk ca) (mk cb) evsA evsB mid
+        let shown := match ab with | some (_, _, _, _, line) => line | none => "(model lost)"
+        ({ sess with model := none, mon := mon },
+         if sess.model.isSome then { rep.msg s!"DIVERGE line={ln} model={shown} impl={obs}" with diverged := rep.diverged + 1 } else rep)
+    | _, _, _ => (sess, rep.msg s!"BAD line={ln}")
   | _ =>
     if !sess.active then (sess, rep.bump "pool.skipped_after_divergence") else
     match parseOp toks obs with
